@@ -16,7 +16,7 @@ from mc.gen import fprog
 ID = "C03"
 LEVEL = "model_checking"
 EXHAUSTIVE = True
-CASE_TIMEOUT = 1800
+CASE_TIMEOUT = 14400
 RULE = ("programs = (a) statement programs: every template of the C01 grammar "
         "alone on each host it supports, core containers x core templates nested "
         "(thorough: + core x core sequences, mini-core containers x every template, "
